@@ -146,7 +146,7 @@ pub fn emit(out: &mut Out, prop: u32, case: &OCase) {
     // the key line before the call (to read the permutation back for the unstable sorts)
     let key_line = |t: &TooDee<u32>| -> Vec<u32> {
         if let TOp::Sort(var, line) = &case.op {
-            let (x0, y0, nc, nr) = if case.kind == 0 { (0, 0, c, r) } else {
+            let (x0, y0, nc, nr) = if case.kind == 0 || case.kind == 6 { (0, 0, c, r) } else {
                 let o = if case.kind == 4 { 1 } else { 0 };
                 let (a, b) = (e.0 - s.0, e.1 - s.1); if a == 0 || b == 0 { (0, 0, 0, 0) } else { (s.0 + o, s.1 + o, a, b) } };
             let l = *line as usize;
@@ -162,6 +162,8 @@ pub fn emit(out: &mut Out, prop: u32, case: &OCase) {
         // narrower than the parent (kind 4: off the top-left edges, kind 5: off the bottom-right)
         4 => { let mut o = t.view_mut((1, 1), (c, r)); let mut v = o.view_mut(s, e); apply(&mut v, &case.op, base, &mut extra) }
         5 => { let mut o = t.view_mut((0, 0), (c - 1, r - 1)); let mut v = o.view_mut(s, e); apply(&mut v, &case.op, base, &mut extra) }
+        // a mutable view built directly over a slice (stride = num_cols; 0 for the empty one)
+        6 => { let mut v = TooDeeViewMut::new(c, r, t.data_mut()); apply(&mut v, &case.op, base, &mut extra) }
         _ => { let mut v = Third(t.view_mut(s, e)); apply(&mut v, &case.op, base, &mut extra) }
     })).is_ok();
     let mut obs = vec![ok as u64];
@@ -205,9 +207,14 @@ fn plain(c: u64, r: u64) -> Vec<u32> { (0..(c * r) as u32).collect() }
 pub fn receivers(smax: u64, parents: &[(u64, u64)], kinds: &[u64]) -> Vec<Recv> {
     let mut v = vec![];
     if kinds.contains(&0) {
-        v.push(Recv { kind: 0, c: 0, r: 0, win: (0, 0, 0, 0), nc: 0, nr: 0 });
-        for c in 1..=smax { for r in 1..=smax { v.push(Recv { kind: 0, c, r, win: (0, 0, 0, 0), nc: c, nr: r }); } }
+        // the owned array, and TooDeeViewMut::new over a slice of the same shape (kind 6)
+        for kind in [0, 6] {
+            v.push(Recv { kind, c: 0, r: 0, win: (0, 0, 0, 0), nc: 0, nr: 0 });
+            for c in 1..=smax { for r in 1..=smax { v.push(Recv { kind, c, r, win: (0, 0, 0, 0), nc: c, nr: r }); } }
+        }
     }
+    // the only window of the empty array: a view whose stride is 0
+    for &k in kinds { if k == 2 || k == 3 { v.push(Recv { kind: k, c: 0, r: 0, win: (0, 0, 0, 0), nc: 0, nr: 0 }); } }
     for &(pc, pr) in parents {
         for s0 in 0..=pc { for e0 in s0..=pc { for s1 in 0..=pr { for e1 in s1..=pr {
             let (mut nc, mut nr) = (e0 - s0, e1 - s1);
@@ -279,10 +286,10 @@ pub fn gen_c14(out: &mut Out, tier: &str, _rng: &mut Rng) {
         }
     }
     // copy_within: all source rectangles x all destination corners (every overlap direction)
-    let shapes: Vec<(u64, u64, u64)> = if tier == "quick" { vec![(0, 3, 3), (0, 1, 4), (0, 4, 1), (2, 5, 5), (3, 5, 4), (0, 0, 0)] }
-        else { vec![(0, 4, 4), (0, 3, 5), (0, 1, 5), (0, 5, 1), (2, 6, 6), (3, 6, 5), (0, 0, 0)] };
+    let shapes: Vec<(u64, u64, u64)> = if tier == "quick" { vec![(0, 3, 3), (0, 1, 4), (0, 4, 1), (2, 5, 5), (3, 5, 4), (0, 0, 0), (2, 0, 0), (3, 0, 0), (6, 0, 0), (6, 3, 2)] }
+        else { vec![(0, 4, 4), (0, 3, 5), (0, 1, 5), (0, 5, 1), (2, 6, 6), (3, 6, 5), (0, 0, 0), (2, 0, 0), (3, 0, 0), (6, 0, 0), (6, 3, 3), (6, 2, 4)] };
     for (kind, c, r) in shapes {
-        let rc = if kind == 0 { Recv { kind: 0, c, r, win: (0, 0, 0, 0), nc: c, nr: r } }
+        let rc = if kind == 0 || kind == 6 || c == 0 { Recv { kind, c, r, win: (0, 0, 0, 0), nc: c, nr: r } }
                  else { Recv { kind, c, r, win: (1, 1, c - 1, r - 1), nc: c - 2, nr: r - 2 } };
         let (nc, nr) = (rc.nc, rc.nr);
         for x0 in 0..=nc + 1 { for x1 in 0..=nc + 1 { for y0 in 0..=nr + 1 { for y1 in 0..=nr + 1 {
@@ -317,6 +324,9 @@ pub fn gen_c15(out: &mut Out, tier: &str, _rng: &mut Rng) {
         }
     } }
     recvs.push(Recv { kind: 2, c: 3, r: 3, win: (1, 1, 1, 1), nc: 0, nr: 0 });
+    // views whose root is empty (stride 0), and TooDeeViewMut::new over a slice
+    for kind in [2, 3, 6] { recvs.push(Recv { kind, c: 0, r: 0, win: (0, 0, 0, 0), nc: 0, nr: 0 }); }
+    for (c, r) in [(1, 1), (3, 2), (2, 5), (4, 4)] { recvs.push(Recv { kind: 6, c, r, win: (0, 0, 0, 0), nc: c, nr: r }); }
     for rc in recvs {
         emit(out, 15, &case(&rc, TOp::FlipRows));
         emit(out, 15, &case(&rc, TOp::FlipCols));
@@ -345,6 +355,8 @@ pub fn gen_sort(out: &mut Out, prop: u32, tier: &str, rng: &mut Rng) {
         recvs.push(Recv { kind: 0, c, r, win: (0, 0, 0, 0), nc: c, nr: r });
         if c > 0 { for kind in [2, 3] { recvs.push(Recv { kind, c: c + 2, r: r + 1, win: (1, 1, c + 1, r + 1), nc: c, nr: r }); } }
     } }
+    for kind in [2, 3, 6] { recvs.push(Recv { kind, c: 0, r: 0, win: (0, 0, 0, 0), nc: 0, nr: 0 }); }
+    for (c, r) in [(1, 1), (3, 2), (2, 3)] { recvs.push(Recv { kind: 6, c, r, win: (0, 0, 0, 0), nc: c, nr: r }); }
     for rc in recvs {
         for &var in &variants {
             let is_col = var >= 6;
